@@ -100,6 +100,16 @@ def check_C06(run):
                       exhaustive=(run.tier != "quick"))
 
 
+def check_C11(run):
+    for c in (["d22"] if run.tier == "quick" else ["d22", "s23", "d32"]):
+        run.model_check("Equil_" + c, "MC_Equil.tla", "MC_Equil_%s.cfg" % c, coverage=False)
+    g = Gen(run.seed * 1000 + 11)
+    types = {"d": 1.0, "s": 0.6, "z": 0.5, "c": 0.4} if run.tier == "quick" else FULL_TYPES
+    run.conform("equ", F.fam_equ(g, "C11", sizes(run, 1200, 12000), types), ["C11."])
+    run.conform("equ_float", F.fam_equ(g, "C11", sizes(run, 300, 3000), types, float_slice=True), ["C11."])
+    return run.finish(rule="matrices up to 4x4 with entries +-2^e over the whole exponent range of the type (subnormal to near overflow, empty rows/columns, explicit zeros, complex entries measured as |re|+|im|): every output of ?gsequ/?laqgs compared as an exponent with SluEquil; random mantissas for the rounding slice")
+
+
 def check_C18(run):
     objs, st, out = vlib.tlc_generate("C18_screen", "SluScreen.tla", "SluScreen.cfg")
     if "No error has been found" not in out:
